@@ -119,6 +119,22 @@ func genC04(kind string) func(r *core.Rng) any {
 			for {
 				n := r.IntRange(2, 5)
 				ph := r.Range(0, 2*math.Pi)
+				if r.Chance(0.2) {
+					// a teardrop: one cubic that starts and ends in the same point, with a corner there
+					v := Pt{cx, cy}
+					dir := Pt{math.Cos(ph), math.Sin(ph)}
+					nrm := Pt{-dir.Y, dir.X}
+					l, wd := rad*r.Range(1, 2), rad*r.Range(0.5, 1.5)
+					c1, c2 := v.Add(dir.Mul(l)).Add(nrm.Mul(wd)), v.Add(dir.Mul(l)).Sub(nrm.Mul(wd))
+					p = &canvas.Path{}
+					p.MoveTo(v.X, v.Y)
+					p.CubeTo(c1.X, c1.Y, c2.X, c2.Y, v.X, v.Y)
+					p.Close()
+					if math.Abs(refArea(p)) >= 1 {
+						break
+					}
+					continue
+				}
 				var vs []Pt
 				for i := 0; i < n; i++ {
 					a := ph + (float64(i)+r.Range(-0.2, 0.2))*2*math.Pi/float64(n)
